@@ -93,21 +93,24 @@ package models
 // _unsafeRemoveChild: removes the first child with the given id (in-place shift), nothing else.
 //@ func _unsafeRemoveChild
 //@   property C11
-//@   requires [linked] parent != nil && linked(parent)
+//@   requires [non-nil] parent != nil
+//@   requires [linked] @C10 forall(j, 0, len(parent.children), parent.children[j] != nil) // no-panic precondition: belongs to C10
 //@   modifies parent.children, elems(parent.children)
 //@   loop range invariant [scanned] -1 <= rangeindex && rangeindex <= len(parent.children) && forall(j, 0, rangeindex+1, parent.children[j].id != childID)
 //@   ensures [absent] forall(j, 0, old(len(parent.children)), old(parent.children[j]).id != childID) ==> len(parent.children) == old(len(parent.children)) && forall(j, 0, len(parent.children), parent.children[j] == old(parent.children[j]))
 //@   ensures [removed] !forall(j, 0, old(len(parent.children)), old(parent.children[j]).id != childID) ==> exists(k, 0, old(len(parent.children)), old(parent.children[k]).id == childID && forall(j, 0, k, old(parent.children[j]).id != childID) && len(parent.children) == old(len(parent.children)) - 1 && forall(j, 0, k, parent.children[j] == old(parent.children[j])) && forall(j, k, len(parent.children), parent.children[j] == old(parent.children[j+1]))) // C11: removing rejected children
-//@   ensures [still-linked] linked(parent)
+//@   ensures [still-linked] old(linked(parent)) ==> linked(parent)
 
 //@ func (*Item).RemoveChild
 //@   property C11
 //@   attr guarded parent parent.childrenMu exempt id,url,seedVia,status,source,base,parent,err
-//@   requires [linked] parent != nil && child != nil && linked(parent)
+//@   requires [non-nil] parent != nil && child != nil
+//@   requires [linked] @C10 forall(j, 0, len(parent.children), parent.children[j] != nil) // no-panic precondition (a nil entry would be dereferenced): belongs to C10
 //@   modifies parent.children, elems(parent.children)
 //@   ensures [absent] forall(j, 0, old(len(parent.children)), old(parent.children[j]).id != child.id) ==> len(parent.children) == old(len(parent.children)) && forall(j, 0, len(parent.children), parent.children[j] == old(parent.children[j]))
 //@   ensures [removed] !forall(j, 0, old(len(parent.children)), old(parent.children[j]).id != child.id) ==> exists(k, 0, old(len(parent.children)), old(parent.children[k]).id == child.id && forall(j, 0, k, old(parent.children[j]).id != child.id) && len(parent.children) == old(len(parent.children)) - 1 && forall(j, 0, k, parent.children[j] == old(parent.children[j])) && forall(j, k, len(parent.children), parent.children[j] == old(parent.children[j+1])))
-//@   ensures [still-linked] linked(parent)
+//@   ensures [still-linked] old(linked(parent)) ==> linked(parent)
+//@   ensures [wf] old(wfNode(parent)) ==> wfNode(parent) // C11: removing rejected children keeps the tree well-formed
 //@   ensures [statuses] parent.status == old(parent.status)
 
 //@ func allChildrenCompleted
@@ -133,3 +136,64 @@ package models
 //@ func (ItemState).String
 //@   opaque
 //@   modifies nothing
+
+// GetChildren: a fresh copy of the children without nil entries (here: of a linked node).
+//@ func (*Item).GetChildren
+//@   property C11
+//@   attr guarded i i.childrenMu exempt id,url,seedVia,status,source,base,parent,err
+//@   modifies nothing
+//@   loop range invariant [copied] -1 <= rangeindex && rangeindex < len(i.children) && freshslice(childrens) && forall(j, 0, len(i.children), i.children[j] == old(i.children[j])) && (forall(j, 0, len(i.children), i.children[j] != nil) ==> len(childrens) == rangeindex + 1 && forall(j, 0, rangeindex+1, childrens[j] == i.children[j]))
+//@   ensures [copy] freshslice(result) && (forall(j, 0, len(i.children), i.children[j] != nil) ==> len(result) == len(i.children) && forall(j, 0, len(result), result[j] == i.children[j]))
+
+// The item graph below a seed is a tree: there is a depth function that grows by one along
+// every child link (assumption A-tree of the recursive contracts; it rules out cycles).
+//@ pure gdepth(n *Item) int
+//@ pred isTree() = forall(n, *Item, forall(j, 0, len(n.children), n.children[j] != nil && gdepth(n.children[j]) == gdepth(n) + 1))
+
+// markCompleted (recursive; its own contract is assumed at the recursive calls).
+//@ func markCompleted
+//@   property C11
+//@   modifies Item::status
+//@   loop range invariant [so-far] -1 <= rangeindex && rangeindex <= len(children) && (old(isTree()) ==> len(children) == len(node.children) && forall(j, 0, len(children), children[j] == node.children[j])) && forall(n, *Item, n.status == old(n.status) || (isGot(old(n.status)) && n.status == ItemCompleted)) && (old(isTree()) ==> forall(n, *Item, gdepth(n) <= gdepth(node) ==> n.status == old(n.status)))
+//@   ensures [mono] forall(n, *Item, n.status == old(n.status) || (isGot(old(n.status)) && n.status == ItemCompleted)) // C11: completion marking only ever completes nodes that got children or a redirection
+//@   ensures [above-untouched] old(isTree()) && node != nil ==> forall(n, *Item, gdepth(n) <= gdepth(node) && n != node ==> n.status == old(n.status))
+//@   ensures [local] old(isTree()) && node != nil ==> node.status == ite(isGot(old(node.status)) && forall(j, 0, len(node.children), !hasWork(node.children[j].status)), ItemCompleted, old(node.status)) // C11: declared complete iff no node below still awaits fetching or post-processing
+
+//@ func (*Item).CompleteAndCheck
+//@   property C11
+//@   modifies Item::status
+//@   ensures [non-seed] i.parent != nil ==> result == false && i.status == old(i.status)
+//@   ensures [result] i.parent == nil ==> result == !hasWork(i.status) // C11: a seed is declared complete iff ...
+//@   ensures [decision] old(isTree()) && i.parent == nil && hasWork(old(i.status)) ==> i.status == ite(isGot(old(i.status)) && forall(j, 0, len(i.children), !hasWork(i.children[j].status)), ItemCompleted, old(i.status))
+//@   ensures [mono] forall(n, *Item, n.status == old(n.status) || (isGot(old(n.status)) && n.status == ItemCompleted))
+
+// (*URL).String: canonical text of a URL (cached); treated as a function of the URL object
+// here, see C09 for determinism of the canonicalisation itself.
+//@ pure urlKey(u *URL) string
+//@ func (*URL).String
+//@   opaque
+//@   modifies nothing
+//@   ensures result == urlKey(u)
+
+//@ func flattenTree
+//@   opaque
+//@   modifies nothing
+//@   ensures freshslice(result)
+
+// DedupeItems: what is proved here is local to each removal (the functional spec "exactly one
+// node per URL, no URL lost" needs an inductive view of the whole traversal; it is covered
+// through these call-site obligations, see DESIGN.md §8 C11):
+//   same-url    a node is removed only while a node with the same URL stays recorded
+//   leaf-only   the removed node has no children, so no URL below it disappears with it
+//@ func (*Item).DedupeItems
+//@   property C11
+//@   replay dedupeItems
+//@   attr assert-all RemoveChild
+//@   requires ErrNotASeed != nil
+//@   modifies Item::status, Item::children, elem::*Item
+//@   loop range invariant [map] forall(k, string, has(urls, k) ==> urls[k] != nil && urlKey(urls[k].url) == k)
+//@   assert RemoveChild(parent)#1: [same-url] urlKey(node.url) == urlKey(existing.url) // C11: de-duplication leaves one node per URL
+//@   assert RemoveChild(parent)#1: [leaf-only] len(existing.children) == 0 // C11: de-duplication never discards a URL altogether
+//@   assert RemoveChild(parent)#2: [same-url] urlKey(node.url) == urlKey(existing.url)
+//@   assert RemoveChild(parent)#2: [leaf-only] len(node.children) == 0 // C11: de-duplication never discards a URL altogether
+//@   ensures [seed-only] i.parent != nil ==> result != nil && i.status == old(i.status)
